@@ -8,6 +8,7 @@
   in emission order; the last block is the root, of level `levels + 1`.
 -/
 import Grenad.Proofs.WriterTreeDecode
+import Grenad.Generated.Constants
 
 namespace Grenad.Props.C09
 
@@ -162,3 +163,14 @@ open Grenad Grenad.Props.C09
 #print axioms C09_conforms
 #print axioms C09_spec_decoder
 end Audit
+
+namespace Grenad.Props.C09
+
+/-- Translator tie: trailer magic, record size and codec ids in /repo's current sources. -/
+theorem C09_constants_from_source :
+    Grenad.Generated.magicV2 = 0x6723D4C4 ∧ Grenad.Generated.magicV2 = Grenad.Meta.magicV2 ∧
+    Grenad.Generated.metadataV2Size + 4 = 22 ∧
+    [Grenad.Generated.codecNone, Grenad.Generated.codecSnappyPre05, Grenad.Generated.codecZlib,
+     Grenad.Generated.codecLz4, Grenad.Generated.codecZstd, Grenad.Generated.codecSnappy] = [0, 1, 2, 3, 4, 5] := by decide
+
+end Grenad.Props.C09
